@@ -210,9 +210,11 @@ class SyncedDict(SyncedCollection, MutableMapping):
                 with self._load_and_save:
                     self._update(data, _validate=True)
                 return
-            self._update(data)
-            with self._thread_lock:
-                self._save()
+            # At the root no load is needed, but the data must only change
+            # while the locks are held, in the same order as for other mutators.
+            self._validate(data)
+            with self._LoadSaveType(self, load=False):
+                self._update(data, _validate=True)
         else:
             raise ValueError(
                 "Unsupported type: {}. The data must be a mapping or None.".format(
@@ -253,9 +255,10 @@ class SyncedDict(SyncedCollection, MutableMapping):
             with self._load_and_save:
                 self._data = {}
             return
-        self._data = {}
-        with self._thread_lock:
-            self._save()
+        # At the root no load is needed, but the data must only change
+        # while the locks are held, in the same order as for other mutators.
+        with self._LoadSaveType(self, load=False):
+            self._data = {}
 
     def update(self, other=None, **kwargs):  # noqa: D102
         if other is not None:
